@@ -28,7 +28,9 @@ def case(ctx, i):
     rng = ctx.rng(i)
     r = core.CaseResult()
     d = ctx.casedir(i)
-    pr, why = pairs.make_pair(ctx, rng, d, mutate.MIXED, nmut=rng.randint(1, 3))
+    cat = dict(mutate.MIXED)
+    cat.update(mutate.EXTRA)       # + anonymous members becoming named and back (layout preserving)
+    pr, why = pairs.make_pair(ctx, rng, d, cat, nmut=rng.randint(1, 3))
     if pr is None:
         return r.skip(why)
     flavor = "asan" if i % 8 == 0 else "plain"
